@@ -32,6 +32,16 @@ class PathV:
         return f"Path({self.name})"
 
 
+class FileV:
+    """an open file handle of the traced file-system model"""
+
+    def __init__(self, path, flags):
+        self.path, self.flags = path, flags
+
+    def __repr__(self):
+        return f"File({self.path}, {self.flags})"
+
+
 STUBS_INSTALLED = [False]
 
 
@@ -96,6 +106,48 @@ def install_stubs():
             return Adt(rt, ex.p.variant_index(rt, 'Ok'), [UNIT])
         return Adt(rt, ex.p.variant_index(rt, 'Err'), [Opaque('io::Error')])
 
+    @model(r'^std::fs::OpenOptions::_open$')
+    def s_open(ex, n, a, f):
+        rt = ret_ty(f)
+        flags = {}
+
+        def collect(v):
+            v = ex.force(v)
+            if isinstance(v, Adt):
+                t = ex.p.ty(v.ty)
+                names = [fl['name'] for fl in t['adt']['variants'][v.variant]['fields']] if t.get('adt') else []
+                for nm, x in zip(names, v.fields):
+                    if isinstance(x, bool):
+                        flags[nm] = x
+                    else:
+                        collect(x)
+        collect(ex.deref(a[0]))
+        path = ex.deref(a[1])
+        ok = ex.choose(2, 'open') == 0
+        ex.io_trace.append(('open', path, dict(flags), ok))
+        if ok:
+            return Adt(rt, ex.p.variant_index(rt, 'Ok'), [FileV(path, dict(flags))])
+        return Adt(rt, ex.p.variant_index(rt, 'Err'), [Opaque('io::Error')])
+
+    @model(r'^<(&)?std::fs::File as std::io::Write>::write_all$')
+    def s_file_write_all(ex, n, a, f):
+        rt = ret_ty(f)
+        fh = ex.deref(a[0])
+        while isinstance(fh, Ref):
+            fh = ex.deref(fh)
+        data = ex.deref(a[1])
+        content = tuple(data.chars) if isinstance(data, (StrRef, StringV)) else tuple(c.v for c in data.cells)
+        ok = ex.choose(2, 'file.write_all') == 0
+        ex.io_trace.append(('file-write', fh.path if isinstance(fh, FileV) else fh, content, ok, dict(fh.flags) if isinstance(fh, FileV) else {}))
+        if ok:
+            return Adt(rt, ex.p.variant_index(rt, 'Ok'), [UNIT])
+        return Adt(rt, ex.p.variant_index(rt, 'Err'), [Opaque('io::Error')])
+
+    @model(r'^<(&)?std::fs::File as std::io::Write>::flush$', r'^std::fs::File::sync_(all|data)$')
+    def s_file_flush(ex, n, a, f):
+        rt = ret_ty(f)
+        return Adt(rt, ex.p.variant_index(rt, 'Ok'), [UNIT])
+
     @model(r'^std::io::stdout$')
     def s_stdout(ex, n, a, f):
         return Opaque('Stdout')
@@ -144,7 +196,7 @@ def install_stubs():
     def s_str_as_bytes_ref(ex, n, a, f):
         return a[0]
     # these stubs must take precedence over generic models
-    for _ in range(14):
+    for _ in range(17):
         REGISTRY.insert(0, REGISTRY.pop())
 
 
@@ -195,7 +247,21 @@ def job_kernel(prog, chk, which, tier):
             ir = IR(chk.ex)
             res = ir.f(r.value)
             is_ok = ir.vn(res) == 'Ok'
-            writes = [t for t in r.io if t[0] in ('fs::write', 'stdout')]
+            # a write through an explicitly opened handle is normalised to the fs::write shape; it only replaces the
+            # destination's content if the file was opened truncating (or freshly created) and not appending
+            io = []
+            inexact = []
+            for t in r.io:
+                if t[0] == 'file-write':
+                    fl = t[4]
+                    if not ((fl.get('truncate') or fl.get('create_new')) and not fl.get('append')):
+                        inexact.append(t)
+                    io.append(('fs::write', t[1], t[2], t[3]))
+                elif t[0] == 'open' and not t[3]:
+                    io.append(('fs::write', t[1], (Frag('opaque', 'F' if r.ghost.get('formatted') else 'G'),), False))
+                elif t[0] != 'open':
+                    io.append(t)
+            writes = [t for t in io if t[0] in ('fs::write', 'stdout')]
             compiled = r.ghost.get('compile') == 'ok'
             chk.res.obligations += 1
             problems = []
@@ -226,6 +292,8 @@ def job_kernel(prog, chk, which, tier):
                         problems.append(f"write {'succeeded' if ok_write else 'failed'} but compile() returned {'Ok' if is_ok else 'Err'}")
                 if not writes and not is_ok:
                     problems.append('nothing to write but compile() returned Err')
+            if compiled and inexact:
+                problems.append(f"the destination is opened without truncation (flags {inexact[0][4]}): an existing longer file keeps its tail, the destination does not hold exactly the text")
             if problems:
                 chk.violation(sig + ' ' + problems[0].split(' ')[0], '; '.join(problems) + f" (I/O trace {[t[0] for t in r.io]})", {'kind': 'kernel', 'mode': mode, 'io': [str(t)[:100] for t in r.io]})
             else:
@@ -236,21 +304,83 @@ def job_kernel(prog, chk, which, tier):
     chk.res.bounds = {'call': 'one compile() call', 'stubs': 'internal_compile, format_bindings, is_dir, fs::write, stdout.write_all'}
 
 
+GOOD = "M DEFINITIONS AUTOMATIC TAGS ::= BEGIN A ::= SEQUENCE { a INTEGER (0..5), b BOOLEAN OPTIONAL } v INTEGER ::= 5 END"
+BAD = "M DEFINITIONS AUTOMATIC TAGS ::= BEGIN A ::= SEQUENCE { a INTEGER (0..5), b BOOLEAN OPTIONAL v INTEGER ::= 5 END"
+
+
+def native_case(runner, backend, state, existing, source):
+    return runner.call({'cmd': 'compile_file', 'sources': [source], 'backend': backend, 'state': state, 'existing': existing})
+
+
+def judge_native(o, state, existing, good):
+    """problems of one real compile() run against a real destination"""
+    probs = []
+    if o.get('result') == 'panic' or 'panic' in o:
+        return ['compile() panicked']
+    if 'result' not in o:
+        return [f"runner: {str(o)[:120]}"]
+    if not good:
+        if o['result'] != 'err':
+            probs.append('malformed input but compile() returned Ok')
+        want = existing if state in ('existing', 'dir-existing') else None
+        if o.get('content') != want:
+            probs.append(f"compilation failed but the destination changed: {str(o.get('content'))[:60]!r}")
+        if state in ('absent', 'dir', 'missing-parent') and o.get('entries'):
+            probs.append(f"compilation failed but files were created: {o.get('entries')}")
+        return probs
+    if state == 'missing-parent':
+        if o['result'] != 'err':
+            probs.append('unwritable destination but compile() returned Ok')
+        return probs
+    if o['result'] != 'ok':
+        probs.append(f"compile() returned Err for a writable destination: {str(o.get('error'))[:100]}")
+    elif o.get('content') != o.get('expected'):
+        c, e = o.get('content') or '', o.get('expected') or ''
+        probs.append(f"destination holds {len(c)} characters, compile_to_string() returns {len(e)}" + (f"; the destination ends with {c[-40:]!r}" if c.startswith(e) else ''))
+    return probs
+
+
 def job_native(prog, chk, tier):
-    """compile() against a real temporary directory, through a tiny native program built from the runner crate? - the runner has no
-    compile() command; this complement uses cargo to run a doc-test-like snippet is not available offline, so the public API is
-    exercised through the runner's compile (compile_to_string) and the file system semantics are left to the kernel job."""
+    """the real compile() of both backends against real destinations (temporary directory created and removed by the runner):
+    destination states absent / existing file shorter and longer than the output / directory / directory holding a longer
+    generated.<ext> / missing parent, for a good and a malformed module"""
     runner = native.Runner()
     try:
-        out = runner.compile("M DEFINITIONS ::= BEGIN A ::= BOOLEAN END")
-        chk.res.obligations += 1
-        if out.get('ok') and 'pub struct A' in out['generated']:
-            chk.res.discharged += 1
-            chk.res.diff_ok += 1
-        else:
-            chk.res.inconclusive.append('native compile_to_string sanity failed')
+        for backend in ('rasn', 'ts'):
+            for state, existing in (('absent', ''), ('existing', 'short'), ('existing', '// stale\n' * 400), ('dir', ''), ('dir-existing', '// stale\n' * 400), ('missing-parent', '')):
+                for good in (True, False):
+                    o = native_case(runner, backend, state, existing, GOOD if good else BAD)
+                    chk.res.obligations += 1
+                    probs = judge_native(o, state, existing, good)
+                    if not probs:
+                        chk.res.discharged += 1
+                        chk.res.diff_ok += 1
+                        continue
+                    kind = ('longer ' if len(existing) > 1000 else 'shorter ') if existing else ''
+                    chk.violation(f"C20 native {backend} {kind}{state} {'good' if good else 'malformed'} input", '; '.join(probs),
+                                  {'kind': 'compile_file', 'backend': backend, 'state': state, 'existing': existing, 'source': GOOD if good else BAD})
+        chk.witness('native destinations exercised', True)
     finally:
         runner.close()
+
+
+def replay_file(path):
+    import json
+    d = json.load(open(path))
+    rp = d.get('replay', {})
+    print(f"property {d.get('property')}  [{d.get('sig')}]\nclaimed: {d.get('what')}")
+    if rp.get('kind') != 'compile_file':
+        print('kernel-level counterexample (I/O trace):', json.dumps(rp)[:1500])
+        return 1
+    runner = native.Runner()
+    try:
+        o = native_case(runner, rp['backend'], rp['state'], rp['existing'], rp['source'])
+    finally:
+        runner.close()
+    probs = judge_native(o, rp['state'], rp['existing'], rp['source'] == GOOD)
+    print('result:', o.get('result'), '| problems:', probs)
+    print('REPRODUCED' if probs else 'not reproduced')
+    return 1 if probs else 0
 
 
 def run_job(prog_main, job, tier, seed):
